@@ -51,6 +51,10 @@ def run_case(case: dict[str, Any], col: Collector | None = None) -> list[tuple[s
         off = set(case["off"])
         flat = [e for o in case["ops"] for e in (vecu.expand(tuple(o)) if o and o[0] != "bytes" else [o])]
         for step, o in enumerate(flat):
+            if isinstance(o, (list, tuple)) and o and o[0] == "idle":
+                if d.idle(o[1]):
+                    ref.session, ref.level = 1, None  # S3 timeout: back to the default session, locked
+                continue
             if isinstance(o, (list, tuple)) and o and o[0] == "bytes":
                 b = o[1]
             else:
